@@ -130,6 +130,9 @@ func c18Sites(c *Ctx) []panicSite {
 						s.Status, s.Why = "proved", "SSA artefact of a blocking select (unreachable: one of the cases was chosen)"
 					}
 				}
+				if s.Status != "proved" && provePanicByCallerCheck(c, f, in) {
+					s.Status, s.Why = "proved", "reached only when a lookup keyed by a parameter misses, and every caller calls the function behind a membership test of the same map and key"
+				}
 			case *ssa.BinOp:
 				if x.Op == token.QUO || x.Op == token.REM {
 					if b, ok := x.X.Type().Underlying().(*types.Basic); ok && b.Info()&types.IsInteger != 0 {
@@ -1400,4 +1403,134 @@ func condsBoth(f *ssa.Function) []ssax.Cond {
 		out = append(out, m)
 	}
 	return out
+}
+
+// provePanicByCallerCheck: an explicit panic that is reached only over the miss edge of `_, ok := recv.<m>[k]` with k a
+// parameter is unreachable when every caller calls the function only after a membership test of the same map with the
+// same key said yes: a call on the true edge of g(recv, k') where g returns exactly the comma-ok of recv.<m>[its
+// parameter], k' being the argument the function is then called with. (The engine's `execCallback` behind
+// `isCallbackExists`: the explicit panic replaces the call of a nil func value and is as unreachable.)
+func provePanicByCallerCheck(c *Ctx, f *ssa.Function, at ssa.Instruction) bool {
+	// the miss edge that dominates the panic
+	var lk *ssa.Lookup
+	var miss ssax.Edge
+	for _, cd := range ssax.Conds(f) {
+		if cd.Op != token.ILLEGAL {
+			continue
+		}
+		ex, ok := ssax.Resolve(cd.X).(*ssa.Extract)
+		if !ok || ex.Index != 1 {
+			continue
+		}
+		l, ok := ex.Tuple.(*ssa.Lookup)
+		if !ok || !l.CommaOk {
+			continue
+		}
+		e, ok := cd.BoolEdge(false)
+		if !ok {
+			continue
+		}
+		hit, _ := cd.BoolEdge(true)
+		// the panic lies behind the miss edge: cutting it makes the panic unreachable, cutting the hit edge does not
+		if !ssax.ReachableAvoiding(f, at, []ssax.Edge{e}, nil) && ssax.ReachableAvoiding(f, at, []ssax.Edge{hit}, nil) {
+			lk, miss = l, e
+		}
+	}
+	_ = miss
+	dbg := func(m string) { if os.Getenv("DCVERIF_DEBUG") != "" { println("callercheck", f.Name(), m) } }
+	if lk == nil {
+		dbg("no lookup")
+		return false
+	}
+	keyParam := -1
+	for i, p := range f.Params {
+		if ssax.Resolve(lk.Index) == ssa.Value(p) {
+			keyParam = i
+		}
+	}
+	mapField := func(v ssa.Value) string { // "<field>" of recv.<field>
+		if ld, ok := ssax.Resolve(v).(*ssa.UnOp); ok {
+			if fa, ok := ld.X.(*ssa.FieldAddr); ok && ssax.FieldOf(fa) != nil {
+				if _, isParam := ssax.Resolve(fa.X).(*ssa.Parameter); isParam {
+					return ssax.FieldOf(fa).Name()
+				}
+			}
+		}
+		return ""
+	}
+	field := mapField(lk.X)
+	if keyParam < 0 || field == "" || len(f.Params) == 0 {
+		dbg(sprintf("keyParam=%d field=%q", keyParam, field))
+		return false
+	}
+	// g: returns the comma-ok of recv.<field>[param]
+	isMembership := func(g *ssa.Function) int {
+		if g == nil || len(g.Blocks) == 0 || len(g.Params) < 2 {
+			return -1
+		}
+		kp := -1
+		for _, ret := range ssax.Returns(g) {
+			if len(ret.Results) != 1 {
+				return -1
+			}
+			ex, ok := ssax.Resolve(ret.Results[0]).(*ssa.Extract)
+			if !ok || ex.Index != 1 {
+				return -1
+			}
+			l, ok := ex.Tuple.(*ssa.Lookup)
+			if !ok || !l.CommaOk || mapField(l.X) != field {
+				return -1
+			}
+			for i, p := range g.Params {
+				if ssax.Resolve(l.Index) == ssa.Value(p) {
+					kp = i
+				}
+			}
+		}
+		return kp
+	}
+	nCallers := 0
+	for caller := range c.P.AllFuncs() {
+		if !load.InModule(caller) || c.isTestFunc(caller) || caller.Synthetic != "" {
+			continue // (promoted-method wrappers of embedding structs are not callers: callersOf treats them the same way)
+		}
+		for _, site := range ssax.Calls(caller, false, func(ci ssa.CallInstruction) bool { return ci.Common().StaticCallee() == f }) {
+			nCallers++
+			args := site.Common().Args
+			guarded := false
+			for _, cd := range ssax.Conds(caller) {
+				if cd.Op != token.ILLEGAL {
+					continue
+				}
+				gc, ok := ssax.Resolve(cd.X).(*ssa.Call)
+				if !ok {
+					continue
+				}
+				kp := isMembership(gc.Common().StaticCallee())
+				if kp < 0 {
+					continue
+				}
+				ga := gc.Common().Args
+				if kp >= len(ga) || keyParam >= len(args) || ssax.Path(ga[kp]) != ssax.Path(args[keyParam]) || ssax.Path(ga[0]) != ssax.Path(args[0]) {
+					continue
+				}
+				if e, ok := cd.BoolEdge(true); ok && !ssax.ReachableAvoiding(caller, site.(ssa.Instruction), []ssax.Edge{e}, nil) {
+					guarded = true
+				}
+			}
+			if !guarded {
+				dbg("unguarded caller " + caller.String() + " synthetic=" + caller.Synthetic)
+				return false
+			}
+		}
+	}
+	// dynamic uses (method values) would escape the census
+	if f.Referrers() != nil && len(*f.Referrers()) > 0 {
+		for _, ref := range *f.Referrers() {
+			if _, isCall := ref.(ssa.CallInstruction); !isCall {
+				return false
+			}
+		}
+	}
+	return nCallers > 0
 }
